@@ -14,8 +14,26 @@ open GV.Line GV.Model.VersionData GV.Model.Handshake GV.Lib.VersionTable
 
 structure Op where
   C : VMap
-  v : Nat
+  /-- the version field of the message as it goes on the wire -/
+  ver : Bytes
   data : Bytes
+
+/-- `<n>` (shortest head) | `<n>/<w>` (w-byte argument) | `x<hex>` (any item) -/
+def parseVersionField (tok : String) : Option Bytes :=
+  if tok.startsWith "x" then (parseHex? (String.ofList (tok.toList.drop 1))).map (·.map (·.toNat))
+  else match tok.splitOn "/" with
+    | [n] => do
+      let n ← parseNat? n
+      if n ≥ 18446744073709551616 then none else pure (encodeUint n)
+    | [n, w] => do
+      let n ← parseNat? n; let w ← parseNat? w
+      let be (k : Nat) : Bytes := (List.range k).reverse.map fun i => n / 256 ^ i % 256
+      if w = 1 ∧ n < 256 then pure (24 :: be 1)
+      else if w = 2 ∧ n < 65536 then pure (25 :: be 2)
+      else if w = 4 ∧ n < 4294967296 then pure (26 :: be 4)
+      else if w = 8 ∧ n < 18446744073709551616 then pure (27 :: be 8)
+      else none
+    | _ => none
 
 def parse (toks : List String) : Option Op :=
   match toks with
@@ -26,10 +44,9 @@ def parse (toks : List String) : Option Op :=
     let dm ← parseBool? dm; let ps ← parseBool? ps; let q ← parseBool? q
     let ks ← parseVersions? shape proposed
     let C ← genMap shape ks magic dm ps q
-    let v ← parseNat? v
+    let ver ← parseVersionField v
     let data ← parseHex? data
-    if v ≥ 65536 then none
-    pure { C, v, data := data.map (·.toNat) }
+    pure { C, ver, data := data.map (·.toNat) }
   | _ => none
 
 def parseRaw : List String → Option RawMap
@@ -72,17 +89,29 @@ def handle (line : String) : Out :=
   match parse (tokens line) with
   | none => badOp
   | some o =>
-    let model := renderCOut (clientReceive lk o.C (.accept o.v o.data))
+    let model := renderCOut (clientReceiveAccept lk o.C o.ver o.data)
     -- The property, stated independently of the client's code path: the handshake may complete
     -- only if the version was proposed, the data is valid for that version (= the version's own
     -- decoder accepts it) and it carries the magic the initiator proposed for that version.
+    -- the number the version item stands for (of any size — no range check here): an unsigned
+    -- integer / bignum is its value; `null` and simple values are what the library reads them as
+    let wire : Option Nat :=
+      match readTagged (o.ver.length + 1) o.ver with
+      | some (.uint n, []) => some n
+      | some (.nullish, []) => some 0
+      | some (.simple n, []) => some n
+      | _ => none
     let allowed : Bool :=
-      match lookupMap o.C o.v, lk o.v with
-      | some own, some k =>
-        match decode k o.data with
-        | some d => wellFormedOne o.data && d.networkMagic == own.networkMagic
-        | none => false
-      | _, _ => false
+      match wire with
+      | none => false
+      | some n =>
+        wellFormedOne o.ver &&
+        match lookupMap o.C n, lk n with
+        | some own, some k =>
+          match decode k o.data with
+          | some d => wellFormedOne o.data && d.networkMagic == own.networkMagic
+          | none => false
+        | _, _ => false
     { model := model, spec := if allowed then "*" else "err:*" }
 
 end GV.Drv.C19
